@@ -18,7 +18,7 @@ from . import c03_source
 
 PID = "C03"
 TITLE = "Volume connectivity answers agree with the cell list"
-LEAN_MODULES = ["Mouette.Props.C03", "Mouette.Props.C03Source"]
+LEAN_MODULES = ["Mouette.Props.C03", "Mouette.Props.C03Source", "Mouette.Props.C03Boundary", "Mouette.Props.C03Order"]
 REQUIRED_THEOREMS = [
     # translated tables
     "adjTable_eq_model", "subFace_eq_model", "adjTable_row_omits_index", "adjTable_agrees_with_slices",
@@ -55,6 +55,13 @@ REQUIRED_THEOREMS = [
     "edge_to_cell_order_of_umbrella",
     # round 4, part B: value-level staleness / clear() as a history theorem over the translated guard table
     "volume_no_stale_read_after_clear", "volume_stale_read_without_clear",
+    # round 5: whole bodies of the boundary extraction, loop by loop, bridged to the hand model
+    "esb_loop1", "esb_loop2", "esb_loop3", "genFace_eq", "extract_surface_boundary_bridge",
+    "ebv_loop1", "ebv_loop2", "ebv_loop3", "genFaceS_eq", "extract_boundary_of_volume_bridge",
+    "bc_init_edge_maps", "bc_init_edge_table_bridge",
+    "boundary_maps_inverse_source", "boundary_surface_source_outward", "boundary_surface_source_closed",
+    # round 5, part B: order of edge_to_face and "at most two border faces around an edge" from decidable predicates
+    "umbrellaData_spec", "edge_to_face_order_of_faceOrder", "walkChain_dropLast_interior", "border_faces_around_edge_le_two",
 ]
 
 TRUSTED = [
@@ -1107,7 +1114,8 @@ def search_on_break(rng, broken, mismatches):
 def _source_map():
     V, B, D = "mouette/mesh/datatypes/volume.py::", "mouette/processing/border.py::", "mouette/mesh/mesh_data.py::RawMeshData."
     m = {}
-    for q in c03_source.TRANSLATED: m[V + q] = "translated"
+    for q in c03_source.TRANSLATED + c03_source.TRANSLATED_R5: m[V + q] = "translated"
+    for q in c03_source.TRANSLATED_R5_BORDER: m[B + q] = "translated"
     # whole body = the events of the guard table (super().__init__/clear + `self._x = None` stores); theorems
     # volumeGuards_init_covers_caches / volumeGuards_clear_restores_fresh speak about the extracted table
     m[V + "VolumeMesh._Connectivity.__init__"] = "translated"
@@ -1131,14 +1139,14 @@ def _source_map():
     m[M + "__str__"] = "out-of-scope: display only"
     m[M + "id_corners"] = "out-of-scope: face corners are not part of the volume connectivity statement"
     BC = V + "VolumeMesh._BoundaryConnectivity."
-    m[BC + "__init__"] = "modelled: Conn.m2bEdgeTable; edge-map domain and the per-instance rebinding of the six maps re-extracted"
-    m[BC + "_extract_surface_boundary"] = "modelled: Conn.boundarySurface / m2bVertex / m2bFace; orientation rule re-extracted (bcOrient)"
+    m.setdefault(BC + "__init__", "modelled")
+    m.setdefault(BC + "_extract_surface_boundary", "modelled")
     for q in ("vertex_to_vertices", "vertex_to_edges", "vertex_to_faces", "face_to_vertices", "in_face_index", "face_to_edges", "face_to_faces"):
         m[BC + q] = "out-of-scope: wrapper composing the index maps with the SurfaceMesh accessors (C01's subject); not named by the statement"
     m[BC + "vertex_to_face_quad"] = "out-of-scope: raises NotImplementedError"
     for q in ("extract_border_cycle", "extract_border_cycle_all", "extract_boundary_of_surface"):
         m[B + q] = "out-of-scope: surface-mesh border functions (C15)"
-    m[B + "extract_boundary_of_volume"] = "modelled: Conn.boundarySurface with the standalone flip; orientation rule re-extracted (sbOrient)"
+    m.setdefault(B + "extract_boundary_of_volume", "modelled")
     for q in ("_generate_cell_faces", "_complete_faces_from_cells"):
         m[D + q] = "modelled: tetra face table re-extracted (completedTable / cellFacesTable, read-only; the function belongs to C02)"
     for q in ("__init__", "id_vertices", "id_edges", "id_faces", "id_cells", "id_facecorners", "id_cellcorners", "dimensionality",
@@ -1170,7 +1178,12 @@ MANIFEST = {
                    "border/interior computations of VolumeMesh are compiled from the working tree on every run into state-passing Lean definitions "
                    "and proved equal to the model (bridge theorems), so the connectivity / border theorems are restated on what the source says; "
                    "the edge-umbrella hypotheses of the rotational-order theorem follow from a decidable predicate; no stale read after clear() "
-                   "for every history with in-place changes of the cells (stamped guard-table machine), and a stale read without clear() is exhibited."),
+                   "for every history with in-place changes of the cells (stamped guard-table machine), and a stale read without clear() is exhibited. "
+                   "Round 5: the whole bodies of _BoundaryConnectivity._extract_surface_boundary / __init__ and of processing.border.extract_boundary_of_volume "
+                   "are compiled loop by loop (Generated/C03B.lean) and proved equal to the model (face / vertex maps, points, one oriented triangle per border "
+                   "face; edge maps modulo the inherited edge_id of the boundary surface), so 'exactly the border faces', 'maps mutually inverse', 'oriented "
+                   "outwards' and the closedness count are restated on what the source computes; the order of edge_to_face and 'at most two border faces "
+                   "around an edge' follow from decidable predicates evaluated on the mesh (faceOrder, faceCover)."),
     "level_note": ("Trusted: Lean kernel + propext/Classical.choice/Quot.sound; the hand-written model (checked against the code on the meshes "
                    "of each run only); the ast translator; prepared face/edge containers as checked hypotheses (C02). Proved under explicit walk hypotheses: "
                    "rotational order of edge_to_cell / edge_to_face (the edge-umbrella hypothesis - the two walks reach every cell / face "
